@@ -374,6 +374,7 @@ func zzRecv[T any](name string) T { panic("spec only") }
 //@ loop 1 preserves [inflight] *started == (old(*started) || zzRet[int]("net.(Conn).Read") > 0)
 //@ loop 1 preserves [progress] read >= old(read) && (read > old(read)) == (zzRet[int]("net.(Conn).Read") > 0)
 //@ loop 1 exits [full]        (result == nil) == (read == len(buf))
+//@ loop 1 exits [readfull]    result != nil ==> zzCalls("net.(Conn).Read") == 0 || old(read)+zzRet[int]("net.(Conn).Read") < len(buf)
 //@ ensures [sticky]  old(*started) ==> *started
 //@ ensures [started] result == nil && len(buf) > 0 ==> *started
 //@ ensures [empty]   len(buf) == 0 ==> result == nil && zzCalls("net.(Conn).Read") == 0 && *started == old(*started)
